@@ -1,7 +1,7 @@
 (* C03 at source level: the translated Decoder methods never panic, never run out of the (11 units of) fuel, and leave the
    cursor inside the buffer -- on every byte string, from every in-range cursor, in both modes.  Obtained by composing
    "translated method = model" (SrcDecMethods, SrcDecSkip) with the model's safety theorems (SafeProofs via CodecProofs). *)
-From CsProto Require Import Prelude Varint ZigZag Codec RefWire WireStmts CodecProofs GoSem SrcWire SrcLink SrcDecoderLink SrcDecMethods SrcDecSkip.
+From CsProto Require Import Prelude Varint ZigZag Codec RefWire WireStmts CodecProofs GoSem SrcWire SrcLink SrcDecoderLink SrcDecMethods SrcDecSkip SrcDecFloat.
 Local Open Scope Z_scope.
 
 Lemma st_ok_Inv d : st_ok d -> Inv d.
@@ -57,6 +57,10 @@ Theorem src_safe_DecodeFixed32 : exists a e off, go_Decoder_DecodeFixed32 fuel (
 Proof. by_model src_Decoder_DecodeFixed32 (DScalar KFixed32). Qed.
 Theorem src_safe_DecodeFixed64 : exists a e off, go_Decoder_DecodeFixed64 fuel (st_p d) (st_off d) (st_mode d) = Val (a, e, off) /\ (Z.to_nat off <= List.length (dbuf d))%nat.
 Proof. by_model src_Decoder_DecodeFixed64 (DScalar KFixed64). Qed.
+Theorem src_safe_DecodeFloat32 : exists a e off, go_Decoder_DecodeFloat32 fuel (st_p d) (st_off d) (st_mode d) = Val (a, e, off) /\ (Z.to_nat off <= List.length (dbuf d))%nat.
+Proof. by_model src_Decoder_DecodeFloat32 (DScalar KFloat). Qed.
+Theorem src_safe_DecodeFloat64 : exists a e off, go_Decoder_DecodeFloat64 fuel (st_p d) (st_off d) (st_mode d) = Val (a, e, off) /\ (Z.to_nat off <= List.length (dbuf d))%nat.
+Proof. by_model src_Decoder_DecodeFloat64 (DScalar KDouble). Qed.
 Theorem src_safe_decodeBytes : exists a e off, go_Decoder_decodeBytes fuel (st_p d) (st_off d) (st_mode d) = Val (a, e, off) /\ (Z.to_nat off <= List.length (dbuf d))%nat.
 Proof. by_model src_Decoder_decodeBytes DBytes. Qed.
 Theorem src_safe_Skip tag wt : 0 <= tag < 2^63 -> - 2^63 <= wt < 2^63 ->
